@@ -204,6 +204,12 @@ class GeminiClient:
             # If TOFU is enabled, verify the certificate
             if self.tofu_db:
                 cert = protocol.get_peer_certificate()
+                if cert is None:
+                    # No readable certificate: never treat this as "unpinned"
+                    raise ConnectionError(
+                        f"Peer certificate of {parsed.hostname}:{parsed.port} "
+                        "could not be read; refusing connection"
+                    )
                 if cert:
                     is_valid, message = self.tofu_db.verify(
                         parsed.hostname, parsed.port, cert
@@ -399,6 +405,12 @@ class GeminiClient:
             # If TOFU is enabled, verify the certificate
             if self.tofu_db:
                 cert = protocol.get_peer_certificate()
+                if cert is None:
+                    # No readable certificate: never treat this as "unpinned"
+                    raise ConnectionError(
+                        f"Peer certificate of {parsed.hostname}:{parsed.port} "
+                        "could not be read; refusing connection"
+                    )
                 if cert:
                     is_valid, message = self.tofu_db.verify(
                         parsed.hostname, parsed.port, cert
